@@ -1,7 +1,7 @@
 (* C11 -- a client and a server session interoperate under any interleaving. *)
 From Coq Require Import ZArith NArith List.
 From Coq.Strings Require Import Byte.
-From SV Require Import Base.Bytes Base.Py Msg.Types Msg.Encode Msg.Decode Msg.RoundTrip
+From SV Require Import Gen.Sharing Base.Bytes Base.Py Msg.Types Msg.Encode Msg.Decode Msg.RoundTrip
   Sess.Model Sess.Drain Sess.Chunk Sess.Proto Sess.Joint Sess.Bytes.
 Import ListNotations.
 Local Open Scope Z_scope.
@@ -136,6 +136,13 @@ Example C11_bytes_example :
   breach 10 ex_b4 /\ s_outstanding (bsv ex_b4) = [1] /\ s_in (bsv ex_b3) <> [] /\ wcs ex_b3 <> [].
 Proof. exact byte_system_example. Qed.
 
+(* The theorems above are about functions and values; that _session.py (everything a session mutates is reached from the session object) keeps no state
+   between calls and shares none between objects is read off the source by tools/audit.py on every run
+   (Gen/Sharing.v): no memoisation, no module- or class-level container that is written, no mutable default, no
+   attribute written behind a dataclass, no parameter stored without a copy. *)
+Theorem C11_audit_no_state_between_calls : (hidden_state_session = [])%list.
+Proof. exact eq_refl. Qed.
+
 Print Assumptions C11_server_accepts_everything_sent.
 Print Assumptions C11_client_accepts_everything_sent.
 Print Assumptions C11_agreement_when_all_delivered.
@@ -147,3 +154,4 @@ Print Assumptions C11_bytes_no_spurious_error.
 Print Assumptions C11_bytes_messages_in_order.
 Print Assumptions C11_bytes_all_received.
 Print Assumptions C11_bytes_agreement.
+Print Assumptions C11_audit_no_state_between_calls.
